@@ -161,6 +161,11 @@ sink_fields += [
     fld("JsonDash", "string", jsonTag="-"),
     fld("subpackage", "string", comment=" import and package words\n"),
     fld("Excluded", "string"),
+    # messages declared in a dependency file that has a Go package of its own (qualified struct types, import_path_overrides)
+    m("Label", "DepLabel"),
+    m("LabelV", "DepLabel", nullable="false"),
+    m("Labels", "DepLabel", card="repeated"),
+    fld("LabelMap", "message", typeName="DepLabel", card="map", mapKey="string"),
 ]
 msgs.append(msg("Sink", sink_fields, oneofs=["first_choice", "SecondChoice"], comment=" Sink holds everything\n"))
 
@@ -173,8 +178,21 @@ msgs.append(msg("Wrap", [
     m("List", "Inner", card="repeated"),
 ]))
 
+# a dependency file with a Go package of its own
+_num[0] = 0
+DEP_FILE = {"name": "dep/dep.proto", "package": "dep", "goPackage": "dpkg", "enums": [],
+            "messages": [msg("DepLabel", [
+                fld("Key", "string", comment=" key of the label\n"),
+                fld("Value", "int64"),
+                fld("Note", "string"),
+                fld("Tags", "string", card="repeated"),
+                fld("DA", "string", oneof=0),
+                fld("DB", "sint64", oneof=0),
+            ], oneofs=["DepChoice"], comment=" a label from another package\n")]}
+
+
 case = {
-    "request": {"deps": [], "file": {"name": "x.proto", "package": "tpkg", "packageComment": " This package holds every shape\n",
+    "request": {"deps": [DEP_FILE], "file": {"name": "x.proto", "package": "tpkg", "packageComment": " This package holds every shape\n",
                                      "enums": [{"name": "EnumOne", "values": [0, 1, 2, -1, 2147483647]}, {"name": "EnumTwo", "values": [0, 5]}],
                                      "messages": msgs}},
     "yaml": {
@@ -182,12 +200,13 @@ case = {
         "durationCustomType": "Duration",
         "sort": False,
         "useStateForUnknownByDefault": True,
-        "excludeFields": ["Sink.Excluded", "Wrap.S.InnerP.Secret", "Inner.EmbFlag"],
-        "requiredFields": ["Sink.SString", "Wrap.ByName.Name", "Leaf.Num"],
+        "excludeFields": ["Sink.Excluded", "Wrap.S.InnerP.Secret", "Inner.EmbFlag", "DepLabel.Note"],
+        "requiredFields": ["Sink.SString", "Wrap.ByName.Name", "Leaf.Num", "DepLabel.Key"],
         "computedFields": ["Sink.SInt32", "Sink.InnerP.Name", "Wrap.S.Inners.LeafList.Str", "Sink.CustomA", "Emb.EmbNum", "Sink.EmbStr"],
-        "sensitiveFields": ["Inner.Secret", "Wrap.S.InnerMap.Leaves.Data", "Sink.CustomB"],
+        "sensitiveFields": ["Inner.Secret", "Wrap.S.InnerMap.Leaves.Data", "Sink.CustomB", "DepLabel.Value"],
         "nameOverrides": [{"k": "Sink.InnerP.Name", "v": "inner_p_name"}, {"k": "Leaf.Flag", "v": "leaf_flag_o"},
-                          {"k": "Wrap.List.LeavesV.Str", "v": "deep_str"}, {"k": "Sink.EmbNum", "v": "emb_num_o"}],
+                          {"k": "Wrap.List.LeavesV.Str", "v": "deep_str"}, {"k": "Sink.EmbNum", "v": "emb_num_o"},
+                          {"k": "DepLabel.Key", "v": "id"}],
         "validators": [{"k": "Sink.SString", "v": ["verifharness/tfx.UseMockValidator()"]},
                        {"k": "Wrap.S.InnerV.LeafListV.Num", "v": ["verifharness/tfx.UseMockValidator()", "verifharness/tfx.UseOtherValidator()"]},
                        {"k": "Sink.CustomB", "v": ["verifharness/tfx.UseMockValidator()"]},
